@@ -17,7 +17,8 @@ SERIAL = os.environ.get("VERIF_TIER") == "quick"
 TECHNIQUE = ("property-based testing (Hypothesis): generated query-set chains, model operations and batches run against a fake session "
              "registered as cqlengine connection; the statement text with its %(n)s markers and the context dict, and the text after the "
              "driver's own parameter substitution, are parsed by an independent CQL statement parser (spec.cqlparse) and compared with "
-             "the requested filters / conditions / assignments, every value carrying a tag that is unique to its clause")
+             "the requested filters / conditions / assignments, every value carrying a tag that is unique to its clause; the DELETE a conditional "
+             "write issues for nulled columns must repeat every requested condition on a column the preceding UPDATE does not assign")
 RULE = ("One case = a model (1-2 partition key columns, 0-2 clustering columns, 2-6 other columns among scalar/set/list/map/static, "
         "some with a db_field name different from the attribute name, some indexed) and a program: one operation, or 2-5 DML "
         "operations inside one BatchQuery.  Operations: select chains (filter with =, IN, >, >=, <, <=, CONTAINS, LIKE, IS NOT NULL, "
@@ -25,9 +26,16 @@ RULE = ("One case = a model (1-2 partition key columns, 0-2 clustering columns, 
         "count / first), Model.create (ttl, timestamp, if_not_exists, explicit None / empty collections), queryset update (scalar "
         "assignment, None, collection assignment, __add/__remove/__append/__prepend/__update with possibly empty collections, iff "
         "conditions with =, !=, <, <=, >, >=, if_exists, ttl, timestamp), queryset delete, and save/update/delete of an instance "
-        "loaded through Model.get (changed scalars, nulled columns, collections grown at the end, the front or both ends in one save, shrunk or replaced, iff, if_exists).  Every "
+        "loaded through Model.get (changed scalars, nulled columns, collections grown at the end, the front or both ends in one save, shrunk or replaced, iff, if_exists).  "
+        "Up to three iff conditions per write, each drawn either among all scalar columns or among the scalar columns the same operation assigns.  "
+        "Two in seven cases are built around a conditional write that assigns one column and nulls another in the same call (the mapper then "
+        "queues an UPDATE and a DELETE that share the WHERE / IF clause objects) with 2-3 conditions, the first on an assigned column, on a model "
+        "with at least two scalar columns; that write is executed alone, as the first, a middle or the last operation of a batch (labels "
+        "cond-write:set+null:{alone,batch-first,batch-later} and ...:conds>=2,mixed:... count how often the DELETE has to drop a condition that "
+        "precedes one it keeps).  Every "
         "requested value is built from a counter so that no two clauses share a scalar.  Non-trivial: a statement with >= 3 clauses "
-        "of >= 2 kinds, or a batch of >= 2 statements, or a collection clause with an empty collection.")
+        "of >= 2 kinds, or a batch of >= 2 statements, or a collection clause with an empty collection (every set+null conditional write "
+        "qualifies: two statements or >= 3 clauses of SET, WHERE and IF).")
 ASSUMPTIONS = [
     "spec/cqllex.py + spec/cqlterm.py + spec/cqlparse.py stand for Cassandra's lexer and DML grammar; a statement they reject is rejected by Cassandra",
     "the fake session substitutes parameters exactly like Session.execute for simple statements (cassandra.query.bind_params with the session's Encoder)",
@@ -36,6 +44,8 @@ ASSUMPTIONS = [
     "every value must belong to the clause's own column, and the clauses of one column applied to the loaded value (prepend / append / add / "
     "remove / element assignment / element deletion, each with the operand bound to its own placeholder) must give the instance's new value",
     "a map assignment through queryset update may be rendered as whole-map assignment or as one element assignment per key",
+    "the null-column DELETE that follows the UPDATE of a conditional write may omit the conditions on columns that UPDATE has just assigned "
+    "(they could no longer hold inside the same batch); it may not omit or alter any other requested condition",
     "DateTime values are whole seconds (the millisecond conversion defects of C36 are not re-reported here); option combinations "
     "Cassandra itself rejects (custom timestamp with conditions, iff together with if_exists) are not generated",
 ]
@@ -58,24 +68,41 @@ def s_coldesc():
     return st.one_of(scalar, scalar, coll, coll, coll)
 
 
-def s_model():
-    col = st.fixed_dictionaries({"t": s_coldesc(), "db": st.sampled_from([False, False, True]), "index": st.sampled_from([0, 0, 1, 2]),
-                                 "static": st.sampled_from([False, False, False, True])})
+def s_model(min_scalar=0):
+    """min_scalar: that many of the non-key columns are scalar for sure (conditions can only be put on scalar columns)"""
+    def col_of(t):
+        return st.fixed_dictionaries({"t": t, "db": st.sampled_from([False, False, True]), "index": st.sampled_from([0, 0, 1, 2]),
+                                      "static": st.sampled_from([False, False, False, True])})
+    col = col_of(s_coldesc())
+    cols = st.lists(col, min_size=2, max_size=6)
+    if min_scalar:
+        sure = st.lists(col_of(st.sampled_from(_SCALAR_KINDS).map(lambda k: {"c": k})), min_size=min_scalar, max_size=min_scalar)
+        cols = st.tuples(sure, st.lists(col, min_size=max(0, 2 - min_scalar), max_size=6 - min_scalar), st.integers(0, 6)).map(
+            lambda t: t[1][:t[2]] + t[0] + t[1][t[2]:])
     key = st.sampled_from(_KEY_KINDS)
     return st.fixed_dictionaries({
         "pk": st.lists(key, min_size=1, max_size=2), "pk_db": st.lists(st.sampled_from([False, False, True]), min_size=2, max_size=2),
         "ck": st.lists(key, min_size=0, max_size=2), "ck_db": st.lists(st.sampled_from([False, False, True]), min_size=2, max_size=2),
-        "cols": st.lists(col, min_size=2, max_size=6)})
+        "cols": cols})
 
 
 _I = st.integers(0, 11)
 _SIZE = st.sampled_from([0, 1, 1, 2, 3])
 
 
-def s_options(lwt=True):
+def s_options(lwt=True, cond=False):
+    """cond=True: the options of a conditional write with two or three iff conditions, the first of them aimed at a column the
+    operation itself writes (iff_on[i] says whether condition i is drawn among the written scalar columns or among all of them)"""
+    cmp_op = st.sampled_from(["EQ", "EQ", "NE", "GT", "GTE", "LT", "LTE"])
+    if cond:
+        return st.fixed_dictionaries({
+            "ttl": st.sampled_from([None, None, 5, 3600]), "ts": st.just(False),
+            "iff": st.lists(st.tuples(_I, cmp_op), min_size=2, max_size=3),
+            "iff_on": st.tuples(st.just(True), st.booleans(), st.booleans()).map(list), "if_exists": st.just(False)})
     return st.fixed_dictionaries({
         "ttl": st.sampled_from([None, None, 5, 3600]), "ts": st.sampled_from([False, False, True]),
-        "iff": st.lists(st.tuples(_I, st.sampled_from(["EQ", "EQ", "NE", "GT", "GTE", "LT", "LTE"])), max_size=2) if lwt else st.just([]),
+        "iff": st.lists(st.tuples(_I, cmp_op), max_size=3) if lwt else st.just([]),
+        "iff_on": st.lists(st.sampled_from([False, False, True]), min_size=3, max_size=3),
         "if_exists": st.sampled_from([False, False, True]) if lwt else st.just(False)})
 
 
@@ -98,8 +125,14 @@ def s_create():
                                   "ine": st.sampled_from([False, False, True])})
 
 
-def s_qupdate():
+def s_qupdate(cond=False):
     kinds = st.sampled_from(["set", "set", "none", "add", "remove", "append", "prepend", "update", "mremove"])
+    if cond:
+        # a conditional update that assigns at least one column and nulls at least one other in the same call (UPDATE + DELETE)
+        head = st.tuples(st.tuples(_I, st.just("set"), _SIZE), st.tuples(_I, st.just("none"), _SIZE), st.booleans()).map(
+            lambda t: [t[0], t[1]] if t[2] else [t[1], t[0]])
+        sets = st.tuples(head, st.lists(st.tuples(_I, kinds, _SIZE), max_size=3)).map(lambda t: t[0] + t[1])
+        return st.fixed_dictionaries({"op": st.just("qupdate"), "cond": st.just(True), "sets": sets, "opt": s_options(cond=True)})
     return st.fixed_dictionaries({"op": st.just("qupdate"), "sets": st.lists(st.tuples(_I, kinds, _SIZE), min_size=1, max_size=5), "opt": s_options()})
 
 
@@ -107,8 +140,16 @@ def s_qdelete():
     return st.fixed_dictionaries({"op": st.just("qdelete"), "n_ck": st.integers(0, 2), "opt": s_options()})
 
 
-def s_iupdate():
+def s_iupdate(cond=False):
     change = st.sampled_from(["set", "set", "none", "grow", "grow_front", "grow_both", "grow_both", "grow_both", "shrink", "replace", "clear", "mix"])
+    if cond:
+        # every column stored; at least one column gets a new value and at least one other is nulled, under 2-3 iff conditions
+        head = st.tuples(st.tuples(_I, st.just("set"), _SIZE), st.tuples(_I, st.just("none"), _SIZE), st.booleans()).map(
+            lambda t: [t[0], t[1]] if t[2] else [t[1], t[0]])
+        changes = st.tuples(head, st.lists(st.tuples(_I, change, _SIZE), max_size=2)).map(lambda t: t[0] + t[1])
+        return st.fixed_dictionaries({"op": st.just("iupdate"), "cond": st.just(True),
+                                      "stored": st.lists(st.tuples(st.just(True), st.sampled_from([1, 2, 3])), min_size=6, max_size=6),
+                                      "changes": changes, "method": st.sampled_from(["save", "update", "update_kw"]), "opt": s_options(cond=True)})
     return st.fixed_dictionaries({"op": st.just("iupdate"), "stored": st.lists(st.tuples(st.booleans(), st.sampled_from([1, 2, 3])), min_size=6, max_size=6),
                                   "changes": st.lists(st.tuples(_I, change, _SIZE), min_size=1, max_size=4),
                                   "method": st.sampled_from(["save", "update", "update_kw"]), "opt": s_options()})
@@ -120,13 +161,21 @@ def s_idelete():
 
 
 def s_case():
-    dml = st.one_of(s_create(), s_qupdate(), s_qupdate(), s_qdelete(), s_iupdate(), s_iupdate(), s_idelete())
+    dml = st.one_of(s_create(), s_qupdate(), s_qupdate(), s_qdelete(), s_iupdate(), s_iupdate(), s_idelete(), s_qupdate(cond=True), s_iupdate(cond=True))
     single = st.one_of(s_select(), s_select(), s_select(), dml, dml, dml).map(lambda o: [o])
     batch = st.fixed_dictionaries({"type": st.sampled_from([None, None, "UNLOGGED"]), "ts": st.sampled_from([False, False, True])})
+    # a conditional write that assigns and nulls columns in one call, at any position of a batch (or alone), on a model with enough
+    # scalar columns to carry conditions both on written and on untouched columns
+    cond = st.one_of(s_qupdate(cond=True), s_iupdate(cond=True))
+    around = st.tuples(st.lists(dml, max_size=1), cond, st.lists(dml, max_size=2)).map(lambda t: t[0] + [t[1]] + t[2])
     return st.one_of(
         st.fixed_dictionaries({"model": s_model(), "prog": single, "batch": st.none()}),
         st.fixed_dictionaries({"model": s_model(), "prog": single, "batch": st.none()}),
-        st.fixed_dictionaries({"model": s_model(), "prog": st.lists(dml, min_size=1, max_size=5), "batch": batch}))
+        st.fixed_dictionaries({"model": s_model(), "prog": single, "batch": st.none()}),
+        st.fixed_dictionaries({"model": s_model(), "prog": st.lists(dml, min_size=1, max_size=5), "batch": batch}),
+        st.fixed_dictionaries({"model": s_model(), "prog": st.lists(dml, min_size=1, max_size=5), "batch": batch}),
+        st.fixed_dictionaries({"model": s_model(min_scalar=2), "prog": around, "batch": batch}),
+        st.fixed_dictionaries({"model": s_model(min_scalar=2), "prog": cond.map(lambda o: [o]), "batch": st.one_of(st.none(), batch)}))
 
 
 # ---------------------------------------------------------------------------------------------------------
@@ -491,15 +540,20 @@ def _rel_expect(col, fop, tags, n_in=2):
     return p, [col.db, _CMP[fop], _vkey(col.tree, t)]
 
 
-def _apply_options(target, opt, cols, tags, expect_if, kind):
-    """target: queryset or instance; returns (target, ttl, ts_us, if_exists); fills expect_if"""
+def _apply_options(target, opt, cols, tags, expect_if, kind, written=()):
+    """target: queryset or instance; returns (target, ttl, ts_us, if_exists); fills expect_if.
+    written: the scalar columns the operation assigns a value to; a condition whose iff_on flag is set is put on one of them"""
     ttl = ts = None
     lwt = bool(opt["iff"]) or opt["if_exists"]
     iff_kw = {}
     others = [c for c in cols if c.role in ("regular", "static") and not c.collection]
     if opt["iff"] and others and not opt["if_exists"]:
-        for idx, fop in opt["iff"]:
+        on = opt.get("iff_on") or []
+        written = [c for c in written if c in others]
+        for n_cond, (idx, fop) in enumerate(opt["iff"]):
             col = others[idx % len(others)]
+            if written and n_cond < len(on) and on[n_cond]:
+                col = written[idx % len(written)]
             if fop != "EQ" and col.kind in ("Boolean", "Blob", "UUID"):
                 fop = "EQ"
             name = col.attr if fop == "EQ" else "%s__%s" % (col.attr, fop.lower())
@@ -766,22 +820,27 @@ def interpret(case, ctx):
                 if in_batch:
                     q = q.batch(batch)
                 exp_if = []
-                q, ttl, ts, if_exists, _has_iff = _apply_options(q, op["opt"], cols, tags, exp_if, "queryset")
-                if ttl is not None:
-                    q = q.ttl(ttl)
-                ukw, sets, nulls, updated = {}, [], [], set()
+                plan, updated = [], set()
                 for idx, what, size in op["sets"]:
                     if not others:
                         break
                     col = others[idx % len(others)]
+                    col = _cond_target(op, others, idx, what, col, lambda c: c.attr in updated)
                     if col.attr in updated:
                         continue
-                    owner = (col.db, "set")
                     legal = {"Set": ("set", "none", "add", "remove"), "List": ("set", "none", "append", "prepend"),
                              "Map": ("set", "none", "update", "mremove")}.get(col.kind, ("set", "none"))
                     if what not in legal:
                         what = legal[(idx + size) % len(legal)]
                     updated.add(col.attr)
+                    plan.append((col, what, size))
+                written = [c for c, what, _s in plan if what == "set" and not c.collection]
+                q, ttl, ts, if_exists, _has_iff = _apply_options(q, op["opt"], cols, tags, exp_if, "queryset", written)
+                if ttl is not None:
+                    q = q.ttl(ttl)
+                ukw, sets, nulls = {}, [], []
+                for col, what, size in plan:
+                    owner = (col.db, "set")
                     ctx.label("qupdate:%s:%s" % (what, col.kind if col.collection else "scalar"))
                     if what == "none":
                         ukw[col.attr] = None
@@ -819,7 +878,8 @@ def interpret(case, ctx):
                     expected.append({"stmt": "update", "set": sets, "where": where, "if": sorted(exp_if), "if_exists": if_exists, "ttl": ttl, "ts": ts})
                 if nulls:
                     expected.append({"stmt": "delete", "targets": sorted([[n, None] for n in nulls], key=json.dumps), "where": where,
-                                     "if_subset_of": sorted(exp_if), "if_exists": if_exists, "ts": "any"})
+                                     "if_subset_of": sorted(exp_if), "if_keep": _conds_kept(exp_if, written), "if_exists": if_exists, "ts": "any"})
+                _label_cond_write(ctx, "qupdate", bool(sets), bool(nulls), exp_if, written, in_batch, op is prog[0])
             elif kind == "qdelete":
                 fkw, where = _pk_filter(cols, tags, min(op["n_ck"], len(cks)))
                 q = M.objects.filter(**fkw)
@@ -856,7 +916,19 @@ def interpret(case, ctx):
                 if in_batch:
                     inst = inst.batch(batch)
                 exp_if = []
-                inst, ttl, ts, if_exists, _h = _apply_options(inst, op["opt"], cols, tags, exp_if, "instance")
+                written, seen = [], set()
+                if kind == "iupdate":
+                    # the scalar columns this save/update gives a new value (first change of a column wins, as below)
+                    for idx, what, _size in op["changes"]:
+                        if not others:
+                            break
+                        col = _cond_target(op, others, idx, what, others[idx % len(others)], lambda c: c.db in seen)
+                        if col.db in seen or col.collection:
+                            continue
+                        seen.add(col.db)
+                        if not (what in ("none", "clear", "shrink") and hm[col.db] is not None):
+                            written.append(col)
+                inst, ttl, ts, if_exists, _h = _apply_options(inst, op["opt"], cols, tags, exp_if, "instance", written)
                 inst.ttl(ttl if kind == "iupdate" else None)
                 if kind == "idelete":
                     with ctx.driver(["C37.idelete.run"]):
@@ -867,7 +939,7 @@ def interpret(case, ctx):
                     for idx, what, size in op["changes"]:
                         if not others:
                             break
-                        col = others[idx % len(others)]
+                        col = _cond_target(op, others, idx, what, others[idx % len(others)], lambda c: c.db in changed)
                         if col.db in changed:
                             continue
                         owner = (col.db, "set")
@@ -919,7 +991,10 @@ def interpret(case, ctx):
                             else:
                                 inst.update()
                     expected.append({"stmt": "instance", "changed": changed, "old": hm, "new": new, "where": sorted(where),
-                                     "if": sorted(exp_if), "if_exists": if_exists, "ttl": ttl, "ts": ts, "has_ck": bool(cks)})
+                                     "if": sorted(exp_if), "if_keep": _conds_kept(exp_if, written), "if_exists": if_exists, "ttl": ttl, "ts": ts,
+                                     "has_ck": bool(cks)})
+                    _label_cond_write(ctx, "iupdate", any(new[c] is not None for c in changed), any(new[c] is None for c in changed),
+                                      exp_if, written, in_batch, op is prog[0])
             if ctx._failures:
                 return
 
@@ -930,6 +1005,39 @@ def interpret(case, ctx):
                 return
 
         check(ctx, case, session.log, expected, by_db, pks, tags, batch_ts, empty_collection_clause)
+
+
+def _cond_target(op, others, idx, what, col, taken):
+    """in the conditional set+null shapes a plain assignment that fell on a collection column goes to a scalar column still free, so
+    that the operation writes a column a condition can be put on"""
+    if op.get("cond") and what == "set" and col.collection:
+        free = [c for c in others if not c.collection and not taken(c)]
+        if free:
+            return free[idx % len(free)]
+    return col
+
+
+def _conds_kept(exp_if, written):
+    """the requested conditions the null-column DELETE of a conditional write has to repeat: all but those on columns the UPDATE in
+    front of it has just given a new value"""
+    names = set(c.db for c in written)
+    return sorted(r for r in exp_if if r[0] not in names)
+
+
+def _label_cond_write(ctx, opname, assigns, nulls, exp_if, written, in_batch, first):
+    names = set(c.db for c in written)
+    if not exp_if:
+        return
+    on_written = [r[0] in names for r in exp_if]
+    if any(on_written):
+        ctx.label("cond-write:condition-on-written-column")
+    if assigns and nulls:
+        where = ("batch-first" if first else "batch-later") if in_batch else "alone"
+        ctx.label("cond-write:set+null:%s" % where)
+        if len(exp_if) >= 2 and any(on_written) and not all(on_written):
+            # exp_if is in request order here: does a condition the DELETE drops precede one it keeps?
+            order = "dropped-before-kept" if on_written.index(True) < len(on_written) - 1 - on_written[::-1].index(False) else "kept-first"
+            ctx.label("cond-write:set+null:conds>=2,mixed:%s:%s" % (opname, where), "cond-write:set+null:conds>=2,mixed:%s:%s" % (order, where))
 
 
 def _py_collection(col, tagged, tags):
@@ -1204,6 +1312,9 @@ def compare(ctx, exp, got, by_db):
         if "if_subset_of" in exp:
             if any(r not in exp["if_subset_of"] for r in got["if"]):
                 ctx.fail(["C37.delete.if", "structure"], "IF of the DELETE %s is not among the requested conditions %s" % (got["if"], exp["if_subset_of"]))
+            elif any(r not in got["if"] for r in exp.get("if_keep", [])):
+                ctx.fail(["C37.delete.if", "condition-dropped"], "IF of the DELETE %s lacks requested condition(s) on columns the UPDATE does not write: %s" % (
+                    got["if"], [r for r in exp["if_keep"] if r not in got["if"]]))
         else:
             same_where("if")
         same("if_exists")
@@ -1312,6 +1423,9 @@ def check_instance(ctx, exp, observed, by_db, pks, tags):
                 ctx.fail(["C37.instance.using", "update"], "USING TTL %r TIMESTAMP %r, requested %r / %r" % (got["ttl"], got["ts"], exp["ttl"], exp["ts"]))
         elif any(r not in exp["if"] for r in conds):
             ctx.fail(["C37.instance.if", "delete"], "IF of the DELETE %s is not among the requested conditions %s" % (conds, exp["if"]))
+        elif any(r not in conds for r in exp.get("if_keep", [])):
+            ctx.fail(["C37.instance.if", "delete-condition-dropped"], "IF of the DELETE %s lacks requested condition(s) on columns the UPDATE does not write: %s" % (
+                conds, [r for r in exp["if_keep"] if r not in conds]))
         if got["if_exists"] != exp["if_exists"]:
             ctx.fail(["C37.instance.if_exists", want_kind], "IF EXISTS %r, requested %r" % (got["if_exists"], exp["if_exists"]))
         for c in cols_here:
